@@ -240,8 +240,6 @@ pub fn enable(cap_bytes: usize) {
 pub struct RegionStats {
     pub peak_live: i64,
     pub largest: usize,
-    pub total_requested: u64,
-    pub live_at_end: i64,
     pub overflow: bool,
 }
 
@@ -265,7 +263,7 @@ pub fn region<R>(reset_peak: bool, f: impl FnOnce() -> R) -> (R, RegionStats) {
     let stats = ST.with(|s| unsafe {
         let st = &mut *s.0.get();
         st.depth -= 1;
-        RegionStats { peak_live: st.peak - base, largest: st.largest, total_requested: st.total, live_at_end: st.live, overflow: st.overflow }
+        RegionStats { peak_live: st.peak - base, largest: st.largest, overflow: st.overflow }
     });
     (r, stats)
 }
@@ -286,8 +284,9 @@ pub fn outside<R>(f: impl FnOnce() -> R) -> R {
 pub fn live_now() -> i64 {
     ST.with(|s| unsafe { (*s.0.get()).live })
 }
-pub fn tracked_blocks() -> usize {
-    ST.with(|s| unsafe { (*s.0.get()).count })
+/// True if the pointer table ever overflowed on this thread (measurements are then lower bounds).
+pub fn overflowed() -> bool {
+    ST.with(|s| unsafe { (*s.0.get()).overflow })
 }
 pub fn is_enabled() -> bool {
     ENABLED.load(Ordering::Relaxed)
